@@ -66,13 +66,21 @@ def gen_case(rng, k):
     if k % 4 == 0:
         shape[1] = shape[0]
     p = [int(rng.integers(c + 1, shape[0] - c)), int(rng.integers(c + 1, shape[1] - c))]
-    return {"pattern": pat, "shape": shape, "p": p, "amp": float(rng.uniform(0.5, 8)), "bg": float(rng.integers(0, 200)),
-            "seed": int(rng.integers(1 << 30)), "upsample": sorted({int(rng.integers(2, 51)), int(rng.integers(2, 51)), 20})}
+    q = {"pattern": pat, "shape": shape, "p": p, "amp": float(rng.uniform(0.5, 8)), "bg": float(rng.integers(0, 200)),
+         "seed": int(rng.integers(1 << 30)), "upsample": sorted({int(rng.integers(2, 51)), int(rng.integers(2, 51)), 20})}
+    if k % 3 == 1:     # earlier use for a frame whose rfft2 spectrum has the same shape (width 2n <-> 2n+1)
+        q["prior_shapes"] = [[shape[0], shape[1] + 1 if shape[1] % 2 == 0 else shape[1] - 1]]
+    elif k % 3 == 2:   # earlier use for a larger frame
+        q["prior_shapes"] = [[shape[0] + 2 * int(rng.integers(1, 5)) + int(rng.integers(0, 2)),
+                              shape[1] + 2 * int(rng.integers(1, 5)) + int(rng.integers(0, 2))]]
+    return q
 
 
 def run_case(kind, q):
     rng = np.random.default_rng(q["seed"])
     pattern = impl.pattern_from(q["pattern"])
+    for s_ in q.get("prior_shapes", []):   # the pattern object has been used for frames of other shapes before
+        pattern.get_template(tuple(s_))
     c = pattern.get_crop_size()
     radius = q["pattern"]["radius"]
     shape, p = tuple(q["shape"]), np.array(q["p"])
